@@ -146,7 +146,7 @@ def gen_case(rng, base, cli):
         elif k < 95:
             add({"op": "reset"}, A.req("POST", "/reset"))
         else:
-            add(rng.choice([{"op": "list"}, {"op": "get", "name": n}, {"op": "toxics", "name": n, "via": "get"}] +
+            add(rng.choice([{"op": "list"}, {"op": "get", "name": n}, {"op": "toxics", "name": n, "via": rng.choice(["get", "kept", "kept", "map"])}, {"op": "toxics", "name": n, "via": "kept"}] +
                            ([{"op": "cli", "args": ["list"]}, {"op": "cli", "args": ["inspect", n]}] if cli else [])), None)
     return {"ops": ops, "raws": raws, "env": env}
 
@@ -194,6 +194,32 @@ def gen_cases(ctx, rng):
         raws.append(None)
         cases.append({"ops": ops, "raws": raws, "env": [(L0, b)], "group": j % 6})
         stats["directed_unspecified"] = stats.get("directed_unspecified", 0) + 1
+    # directed: one handle kept by the caller and used for several read-backs while the toxics behind it change type at a position
+    # (the first of two removed, one replaced by another type, an upstream toxic added in front): every Toxics() equals the server's state
+    for j in range(10 if ctx.tier == "quick" else 200):
+        b = base + (j % 6) * 4
+        L0 = "127.0.0.1:%d" % b
+        tys = rng.choice([["latency", "bandwidth"], ["slicer", "timeout"], ["bandwidth", "latency", "slow_close"]])
+        ops = [{"op": "create", "name": "a", "listen": L0, "upstream": "u1:1"}]
+        raws = [A.req("POST", "/proxies", A.J({"name": "a", "listen": L0, "upstream": "u1:1", "enabled": True}))]
+        for k, ty in enumerate(tys):
+            at = {f: rng.choice([5, 64, 2500]) for f in A.TOXIC_FIELDS[ty]}
+            ops.append({"op": "add_toxic", "name": "a", "via": "kept", "toxic": "t%d" % k, "type": ty, "stream": "downstream", "toxicity": 1, "attrs": at})
+            raws.append(A.req("POST", "/proxies/a/toxics", A.J({"name": "t%d" % k, "type": ty, "stream": "downstream", "toxicity": 1, "attributes": at})))
+        ops.append({"op": "toxics", "name": "a", "via": "kept"}); raws.append(None)
+        how = rng.choice(["remove_first", "replace_first", "add_upstream"])
+        if how in ("remove_first", "replace_first"):
+            ops.append({"op": "remove_toxic", "name": "a", "via": "kept", "toxic": "t0"}); raws.append(A.req("DELETE", "/proxies/a/toxics/t0"))
+        if how != "remove_first":
+            ty = rng.choice([t for t in ["limit_data", "slicer", "timeout"] if t not in tys])
+            st = "upstream" if how == "add_upstream" else "downstream"
+            at = {f: rng.choice([7, 900]) for f in A.TOXIC_FIELDS[ty]}
+            ops.append({"op": "add_toxic", "name": "a", "via": "kept", "toxic": "n", "type": ty, "stream": st, "toxicity": 1, "attrs": at})
+            raws.append(A.req("POST", "/proxies/a/toxics", A.J({"name": "n", "type": ty, "stream": st, "toxicity": 1, "attributes": at})))
+        ops.append({"op": "toxics", "name": "a", "via": "kept"}); raws.append(None)
+        ops.append({"op": "toxics", "name": "a", "via": "kept"}); raws.append(None)
+        cases.append({"ops": ops, "raws": raws, "env": [(L0, b)], "group": j % 6})
+        stats["directed_kept_handle_readbacks"] = stats.get("directed_kept_handle_readbacks", 0) + 1
     return cases, stats
 
 
@@ -268,6 +294,15 @@ def oracle(case, res):
                 p = st[v["name"]]
                 if (v.get("listen"), v.get("upstream"), v.get("enabled")) != (p["listen"], p["upstream"], p["enabled"]):
                     return (i, "the value returned by %s differs from the server's state" % op["op"])
+        if op["op"] == "toxics" and not r["err"] and isinstance(r.get("value"), list):
+            # what the library reads back equals the server's state (numbers compared as the library's float64 holds them)
+            srv = [t for p in (after[1] if after[0] == "proxies" else []) if p["name"] == op["name"] for t in p["toxics"]]
+            norm = lambda t: (t.get("name"), t.get("type"), t.get("stream"), float(t.get("toxicity") or 0),
+                              sorted((k, float(v)) for k, v in (dict(t["attrs"]) if "attrs" in t else (t.get("attributes") or {})).items()))
+            got = sorted(norm(t) for t in r["value"])
+            want = sorted(norm(t) for t in srv)
+            if got != want:
+                return (i, "Toxics() on a %s handle returned %s but the server holds %s" % (op.get("via"), json.dumps(got)[:300], json.dumps(want)[:300]))
         prev = after if after[0] == "proxies" else ("proxies", [])
     return None
 
